@@ -534,11 +534,17 @@ class Interp:
                 out.append((b, False))
             return out
         if l[0] == 'kind':
-            if isinstance(op, (ast.Is, ast.Eq)) and r[0] == 'cls':
-                return two(self.g.cls_atoms(r[1]), l[1], l[2])
-            if isinstance(op, ast.In) and r[0] == 'tuple':
+            if isinstance(op, (ast.Is, ast.Eq, ast.IsNot, ast.NotEq)) and r[0] == 'cls':
+                res = two(self.g.cls_atoms(r[1]), l[1], l[2])
+                if isinstance(op, (ast.IsNot, ast.NotEq)):
+                    res = [(a, not t) for a, t in res]
+                return res
+            if isinstance(op, (ast.In, ast.NotIn)) and r[0] == 'tuple':
                 atoms = frozenset().union(*[self.g.cls_atoms(x[1]) for x in r[1]])
-                return two(atoms, l[1], l[2])
+                res = two(atoms, l[1], l[2])
+                if isinstance(op, ast.NotIn):
+                    res = [(a, not t) for a, t in res]
+                return res
         if l[0] == 'val':
             if r[0] == 'const':
                 vals = r[1]
